@@ -82,6 +82,20 @@ def run(ctx):
             lines = ['gatecase %s %d %s' % (spec, gi, ' '.join(fmt(x) + ' ' + str(y) for (x, y) in smp)) for (gi, g, smp, exp, kind, comb) in cases]
             io = vlib.run_lines(exe, lines, timeout=7200)
             hist[lam] = [(l, c[3], c[1], c[4]) for l, c in zip(lines, cases) if c[4] != 'edge' and c[3] is not None and c[0] != 12]
+            # the same gates with the ciphertext arrays (inputs, result, the library's temporaries) ending flush with an inaccessible page
+            # (harness/guard_new.h; ciphertexts in shared memory, a mapped file, a hardened allocator): the gate must neither die nor decide otherwise
+            seen = set(); gsub = []
+            for ci, c in enumerate(cases):
+                if c[4] != 'edge' and (c[0], c[4] == 'trivial') not in seen: seen.add((c[0], c[4] == 'trivial')); gsub.append(ci)
+            go = vlib.run_lines(exe, ['guard 1'] + [lines[ci] for ci in gsub] + ['guard 0'], timeout=3600)[1:-1]
+            for ci, o in zip(gsub, go):
+                ctx.count((backend, build, lam, 'guard', lines[ci][:4000]))
+                if o.startswith('CRASH'):
+                    ctx.report('gate-out-of-bounds', '%s/%s %d-bit set: %s dies when its ciphertext arrays end at an inaccessible page (it reads or writes past the end of an array): %s' % (backend, build, lam, cases[ci][1], o[:80]),
+                               {'case': lines[ci][:200000], 'backend': backend, 'build': build, 'guard': 1}); break
+                if not io[ci].startswith('CRASH') and ints(o)[1] != ints(io[ci])[1]:
+                    ctx.report('gate-wrong', '%s/%s %d-bit set: %s decides %d on ciphertexts that end at a page boundary and %d on the same ciphertexts on the ordinary heap' % (backend, build, lam, cases[ci][1], ints(o)[1], ints(io[ci])[1]),
+                               {'case': lines[ci][:200000], 'backend': backend, 'build': build, 'guard': 1})
             # model: the temporary handed to the bootstrapping, then its rounded exponent
             ml = []; mi = []
             for ci, (gi, g, smp, exp, kind, comb) in enumerate(cases):
@@ -218,6 +232,9 @@ def replay(ctx, data):
         print('gate %s after a sequence of %d gates under alternating key sets: expected bit %s, recorded %s; implementation now: phase, bit = %s' % (data.get('gate'), len(data['sequence']), data.get('expected_bit'), data.get('observed_bit'), o.split()[:2]))
         return 0
     if 'case' not in data: print(json.dumps(data)[:1500]); return 0
+    if data.get('guard'):
+        o = vlib.run_lines(exe, ['guard 1', data['case']], timeout=1800)[-1]
+        print('with the ciphertext arrays ending at inaccessible pages the implementation answers now:', o[:120]); return 1 if o.startswith('CRASH') else 0
     o = vlib.run_lines(exe, [data['case']], timeout=1800)[0]
     print('gate %s, %s inputs: expected bit %s, recorded %s; implementation now: phase, bit = %s' % (data.get('gate'), data.get('kind'), data.get('expected_bit'), data.get('observed_bit'), o.split()[:2]))
     return 0
